@@ -772,10 +772,72 @@ def run_same_line(ctx):
                      inp, res, exp, note="entries are [function (last component), file, line]; expected = CPython's frames")
 
 
+FL_SCRIPT = r"""
+import sys, json, importlib
+spec = json.load(sys.stdin)
+out = {}
+for name in spec["modules"]:
+    m = importlib.import_module(name)
+    d = {}
+    for k, v in sorted(vars(m).items()):
+        if callable(v) and hasattr(v, "__code__") and k.startswith("f"):
+            co = v.__code__
+            d[k] = [co.co_firstlineno, sorted(set(l for _, _, l in co.co_lines() if l is not None))[:3]]
+    out[name] = d
+print(json.dumps(out))
+"""
+
+
+def run_firstline(ctx):
+    """co_firstlineno of every function when the LARGEST first line of the module sits on each side of a power of two
+    (the per-module description struct stores first lines in a bit-field as wide as the largest one needs)"""
+    quick = ctx.tier == "quick"
+    ks = [2, 3, 6, 7] if quick else [1, 2, 3, 4, 5, 6, 7, 8, 10]
+    specs, want = [], {}
+    for k in ks:
+        for delta in (-1, 0, 1):
+            last = 2 ** k + delta
+            if last < 2:
+                continue
+            name = "c44_fl_%d_%s" % (k, {-1: "m", 0: "e", 1: "p"}[delta])
+            lines, expect, n = [], {}, 0
+            while len(lines) + 1 < last - 1 and n < 3:          # a few early functions
+                expect["f%d" % n] = len(lines) + 1
+                lines += ["def f%d(a):" % n, "    return a + %d" % n]
+                n += 1
+            while len(lines) + 1 < last:
+                lines.append("# filler")
+            expect["flast"] = len(lines) + 1
+            lines += ["def flast(a, b=2):", "    c = a * b", "    return c"]
+            assert expect["flast"] == last
+            specs.append(dict(name=name, source="\n".join(lines) + "\n", workdir=ctx.workdir, cflags=["-O0"]))
+            want[name] = expect
+    built = cybuild.build_many(specs, jobs=8)
+    ok = []
+    for sp, (so, err) in zip(specs, built):
+        if err is not None:
+            ctx.corr_break("build " + sp["name"], sp["name"], str(err)[:800], "module builds")
+        else:
+            ok.append(sp["name"])
+    r = cybuild.run_script(FL_SCRIPT, ctx.workdir, {"modules": ok}, name="c44_fl_run.py", timeout=600)
+    js = r["json"]
+    if js is None:
+        ctx.corr_break("firstline worker", ok, (r["rc"], r["err"][-800:]), "worker runs")
+        return
+    for name in ok:
+        for fn, line in sorted(want[name].items()):
+            inp = {"module": name, "function": fn, "def_line": line, "largest_first_line": want[name]["flast"]}
+            ctx.case("firstlineno", inp, sig=(name, fn))
+            got = js[name].get(fn)
+            if got is None or got[0] != line or (got[1] and got[1][0] < line):
+                ctx.fail("wrong_firstlineno", inp, got, "co_firstlineno == %d and no table line before it" % line)
+
+
 def run(ctx):
     run_encoder(ctx)
     run_compiled(ctx)
     run_same_line(ctx)
+    run_firstline(ctx)
 
 
 def replay(ctx, obj):
